@@ -145,3 +145,58 @@ Proof.
   intros H. cbn [apply_action]. unfold py_insert. destruct (idx <? 0)%Z eqn:E; [apply Z.ltb_lt in E; lia|].
   rewrite Z.min_l by lia. reflexivity.
 Qed.
+
+(* ---- isar: the records built from the <dimension> forms are the text front-end's records ---- *)
+From Prophy Require Import PcIsar.
+Section IsarFacts.
+  Variables has_name numof_name len_name : nat -> nat.
+  Variable u32 : nat.
+  Local Notation members := (isar_members has_name numof_name len_name u32).
+
+  Definition dim0 : dimension :=
+    {| d_size := None; d_size2 := None; d_this_is_variable := false; d_var_name := None; d_is_variable := false; d_var_type := None |}.
+
+  Theorem isar_plain n t : members n t false None false = [text_member (DPlain t n)].
+  Proof. reflexivity. Qed.
+  Theorem isar_optional n t : members n t true None false = [text_member (DOpt t n)].
+  Proof. reflexivity. Qed.
+  (* <dimension size="N"/> and size="N" size2="M" *)
+  Theorem isar_fixed n t a dyn :
+    members n t false (Some {| d_size := Some a; d_size2 := None; d_this_is_variable := false; d_var_name := None;
+                               d_is_variable := false; d_var_type := None |}) dyn = [text_member (DFixed t n a)].
+  Proof. reflexivity. Qed.
+  Theorem isar_fixed_2d n t a b dyn :
+    members n t false (Some {| d_size := Some a; d_size2 := Some b; d_this_is_variable := false; d_var_name := None;
+                               d_is_variable := false; d_var_type := None |}) dyn = [text_member (DFixed t n (a * b))].
+  Proof. reflexivity. Qed.
+  (* variableSizeFieldName="@s": T x<@s> *)
+  Theorem isar_bound n t s sz sz2 tiv iv vt dyn :
+    members n t false (Some {| d_size := sz; d_size2 := sz2; d_this_is_variable := tiv; d_var_name := Some (true, s);
+                               d_is_variable := iv; d_var_type := vt |}) dyn = [text_member (DBound t n s)].
+  Proof. reflexivity. Qed.
+  (* isVariableSize with a size: the counter and T x<N> (N = size, or size*size2) counted by it *)
+  Theorem isar_limited n t a ob vn vt :
+    (forall s, vn <> Some (true, s)) ->
+    let sizer := match vn with Some (_, s) => s | None => len_name n end in
+    let ct := match vt with Some c => c | None => u32 end in
+    let cap := match ob with Some b => (a * b)%Z | None => a end in
+    members n t false (Some {| d_size := Some a; d_size2 := ob; d_this_is_variable := false; d_var_name := vn;
+                               d_is_variable := true; d_var_type := vt |}) false
+    = [text_member (DPlain ct sizer); text_member (DLimitedBy t n cap sizer)].
+  Proof.
+    intros Hv. cbv zeta. unfold isar_members, isar_size. cbn [d_size d_size2 d_var_name d_this_is_variable d_is_variable d_var_type app].
+    destruct vn as [[[|] s]|]; [exfalso; apply (Hv s); reflexivity| |]; destruct ob; reflexivity.
+  Qed.
+  (* the last array of a message (dynamic_array): the counter and T x<@counter> *)
+  Theorem isar_message_tail n t sz ob vn vt :
+    (forall s, vn <> Some (true, s)) ->
+    let sizer := match vn with Some (_, s) => s | None => len_name n end in
+    let ct := match vt with Some c => c | None => u32 end in
+    members n t false (Some {| d_size := sz; d_size2 := ob; d_this_is_variable := false; d_var_name := vn;
+                               d_is_variable := true; d_var_type := vt |}) true
+    = [text_member (DPlain ct sizer); text_member (DBound t n sizer)].
+  Proof.
+    intros Hv. cbv zeta. unfold isar_members. cbn [d_var_name d_this_is_variable d_is_variable d_var_type app].
+    destruct vn as [[[|] s]|]; [exfalso; apply (Hv s); reflexivity| |]; reflexivity.
+  Qed.
+End IsarFacts.
